@@ -111,7 +111,7 @@ Definition reviewed : list (key * disposition) := [
   (K "cmd/pint/ci.go" "actionCI" "config.MustCompileRegexes" "meta.cfg.Parser.Exclude", ValidatedWrapped "Parser.validate" "regexp.Compile" "p.Exclude[]" "^p$ (the config file path is appended to Exclude unvalidated: CLI)");
   (K "cmd/pint/ci.go" "actionCI" "config.MustCompileRegexes" "meta.cfg.Parser.Relaxed", ValidatedWrapped "Parser.validate" "regexp.Compile" "p.Relaxed[]" "^p$ (the config file path is appended to Exclude unvalidated: CLI)");
   (K "cmd/pint/ci.go" "actionCI" "time.ParseDuration" "meta.cfg.Repository.BitBucket.Timeout", ZeroValue "validated with Prometheus parseDuration (accepts d/w/y), used with time.ParseDuration: a value like 1d yields timeout 0 = no timeout, no dereference");
-  (K "cmd/pint/ci.go" "actionCI" "time.ParseDuration" "meta.cfg.Repository.GitLab.Timeout", ZeroValue "validated with Prometheus parseDuration (accepts d/w/y), used with time.ParseDuration: a value like 1d yields timeout 0 = no timeout, no dereference");
+  (K "cmd/pint/ci.go" "actionCI" "time.ParseDuration" "meta.cfg.Repository.GitLab.Timeout", ZeroValue "NOT validated at all (GitLab.validate does not look at timeout; only an empty value is defaulted to 1m): an unparsable value yields timeout 0 = no timeout, no dereference");
   (K "cmd/pint/ci.go" "actionCI" "time.ParseDuration" "meta.cfg.Repository.GitHub.Timeout", ZeroValue "validated with Prometheus parseDuration (accepts d/w/y), used with time.ParseDuration: a value like 1d yields timeout 0 = no timeout, no dereference");
   (K "cmd/pint/lint.go" "actionLint" "config.MustCompileRegexes" "meta.cfg.Parser.Include", ValidatedWrapped "Parser.validate" "regexp.Compile" "p.Include[]" "^p$ (the config file path is appended to Exclude unvalidated: CLI)");
   (K "cmd/pint/lint.go" "actionLint" "config.MustCompileRegexes" "meta.cfg.Parser.Exclude", ValidatedWrapped "Parser.validate" "regexp.Compile" "p.Exclude[]" "^p$ (the config file path is appended to Exclude unvalidated: CLI)");
@@ -242,3 +242,68 @@ Fixpoint reachable_types (fuel : nat) (acc : list string) : list string :=
 
 Definition block_reachable (b : config_block) : bool :=
   mem_str (cb_struct b) (reachable_types (List.length config_blocks) ["Config"]).
+
+(** * Attribute coverage: which options of a block its validate() looks at
+
+    [config_attrs] = every non-block hcl field of every struct of internal/config; [validate_mentions] = every field
+    of the receiver that the struct's validate method reads, directly or through a method of the same type it calls
+    (one level).  An option that validate never reads is accepted with ANY value; each of them needs a reviewed reason
+    here (booleans need none: every value is meaningful).  This is the class of the seeded defect "match
+    keep_firing_for is never validated, a refactoring makes the later parse panic": a NEW option is either looked
+    at by validate or has to be reviewed. *)
+Definition unvalidated_attrs : list (string * string * string) := [
+  ("AggregateSettings", "Comment", "free text copied into the report");
+  ("AlertsSettings", "Comment", "free text copied into the report");
+  ("AnnotationSettings", "Comment", "free text copied into the report");
+  ("AnnotationSettings", "Values", "list of literal values compared with == (never compiled)");
+  ("CI", "BaseBranch", "branch name handed to git; an unknown branch is a git error, reported");
+  ("CostSettings", "Comment", "free text copied into the report");
+  ("PrometheusTemplate", "Headers", "text templates rendered per discovered target; render errors are returned");
+  ("PrometheusTemplate", "PublicURI", "rendered per target, the result is display text");
+  ("PrometheusTemplate", "Uptime", "rendered per target; the rendered PrometheusConfig goes through PrometheusConfig.validate (discovery.go)");
+  ("PrometheusTemplate", "Failover", "rendered per target; used as request URIs, a bad URI is a request error");
+  ("PrometheusTemplate", "Include", "rendered per target; the rendered PrometheusConfig goes through PrometheusConfig.validate");
+  ("PrometheusTemplate", "Exclude", "rendered per target; the rendered PrometheusConfig goes through PrometheusConfig.validate");
+  ("PrometheusTemplate", "Tags", "rendered per target; the rendered PrometheusConfig goes through PrometheusConfig.validate");
+  ("PrometheusTemplate", "Concurrency", "integer; non-positive values are replaced by the default (applyDefaults)");
+  ("PrometheusTemplate", "RateLimit", "integer; non-positive values are replaced by the default (applyDefaults)");
+  ("FilePath", "Directory", "walked with filepath.WalkDir; a missing directory is a returned error");
+  ("PrometheusQuery", "URI", "request URI; a bad URI is a returned request error");
+  ("PrometheusQuery", "Headers", "map of literal header values");
+  ("ForSettings", "Comment", "free text copied into the report");
+  ("Match", "KeepFiringFor", "NOT validated although it is parsed like `for` (parseDurationMatch): the dropped error leaves the zero durationMatch, which matches nothing - exercised by the match stratum of the binary runs (ZeroValue row of the site table)");
+  ("TLSConfig", "ServerName", "literal copied into tls.Config");
+  ("TLSConfig", "CaCert", "file read by toHTTPConfig, which config.Load calls for every prometheus block and whose error rejects the configuration (ValidatedSame row)");
+  ("PrometheusConfig", "Headers", "map of literal header values");
+  ("PrometheusConfig", "Name", "block label; uniqueness is checked by config.Load");
+  ("PrometheusConfig", "PublicURI", "display text");
+  ("PrometheusConfig", "Failover", "request URIs; a bad URI is a request error = an unavailable upstream");
+  ("PrometheusConfig", "Concurrency", "integer; non-positive values are replaced by the default (applyDefaults)");
+  ("PrometheusConfig", "RateLimit", "integer; non-positive values are replaced by the default (applyDefaults)");
+  ("RangeQuerySettings", "Comment", "free text copied into the report");
+  ("RejectSettings", "Comment", "free text copied into the report");
+  ("GitLab", "URI", "base URL of the API client; a bad URL is a returned client error");
+  ("GitLab", "Timeout", "NOT validated (BitBucket and GitHub timeouts are): the dropped time.ParseDuration error yields 0 = no timeout (ZeroValue row of the site table)");
+  ("RuleLinkSettings", "URI", "rewrite target; an unusable result is reported as a failed request (fix 457aa6b)");
+  ("RuleLinkSettings", "Headers", "map of literal header values");
+  ("RuleLinkSettings", "Comment", "free text copied into the report");
+  ("RuleNameSettings", "Comment", "free text copied into the report")
+].
+
+Fixpoint mem_pair (a b : string) (l : list (string * string)) : bool :=
+  match l with [] => false | (x, y) :: r => (String.eqb a x && String.eqb b y) || mem_pair a b r end.
+
+Definition attr_mentioned (a : config_attr) : bool := mem_pair (ca_struct a) (ca_field a) validate_mentions.
+
+Definition attr_reviewed (a : config_attr) : bool :=
+  existsb (fun r => String.eqb (fst (fst r)) (ca_struct a) && String.eqb (snd (fst r)) (ca_field a)) unvalidated_attrs.
+
+(** the option is looked at by its block's validate method, or is a boolean, or has a reviewed reason — and its block
+    has a validate method at all *)
+Definition attr_ok (a : config_attr) : bool :=
+  mem_str (ca_struct a) validate_methods &&
+  (attr_mentioned a || String.eqb (ca_type a) "bool" || attr_reviewed a).
+
+(** a reviewed reason is only kept for an option that exists and is still NOT looked at *)
+Definition unvalidated_row_live (r : string * string * string) : bool :=
+  existsb (fun a => String.eqb (fst (fst r)) (ca_struct a) && String.eqb (snd (fst r)) (ca_field a) && negb (attr_mentioned a)) config_attrs.
